@@ -14,6 +14,7 @@ package sim
 
 import (
 	"fmt"
+	"regexp"
 	"runtime"
 	"sort"
 	"strings"
@@ -98,6 +99,10 @@ type Config struct {
 	PreemptMean int   // mean gap, in yield steps, between preemptions
 	WriterPref  bool  // model Go's RWMutex writer preference
 	Trace       bool  // record an event log
+	// Invariant, if set, is evaluated by the scheduler between steps (every
+	// other goroutine is parked or blocked then); a non-empty result is
+	// recorded as the run's first invariant violation.
+	Invariant func() string
 }
 
 // Result of one run.
@@ -116,6 +121,8 @@ type Result struct {
 	LeakDump    string
 	Log         []string
 	MaxRunnable int
+	Invariant   string // first invariant violation, with the step at which it was seen
+	Events      int64  // Stamp() calls
 }
 
 // Runtime is the state of one simulated run.
@@ -155,7 +162,6 @@ func New(tape *Tape, cfg Config) *Runtime {
 	}
 	r := &Runtime{byGID: map[uint64]*Task{}, tape: tape, cfg: cfg, preLeft: cfg.Preempt}
 	r.base = runtime.NumGoroutine()
-	active.Store(r)
 	return r
 }
 
@@ -264,6 +270,7 @@ func Yield(site int32) {
 			r.force = false
 			if r.nextPre != 0 && r.steps >= r.nextPre {
 				r.res.Preempts++
+				r.preLeft--
 				r.nextPre = 0
 			}
 			r.park(t, stRunnable)
@@ -335,6 +342,17 @@ func GoExit() {
 	r.mu.Unlock()
 }
 
+// Stamp returns the next value of the run's global event sequence. Only the
+// baton holder may call it, so the order of stamps is the real-time order.
+func Stamp() int64 {
+	r := active.Load()
+	if r == nil {
+		return 0
+	}
+	r.res.Events++
+	return r.res.Events
+}
+
 // Go starts fn as a non-client helper task (harness drainers etc.).
 func Go(name string, fn func()) {
 	r := active.Load()
@@ -342,6 +360,7 @@ func Go(name string, fn func()) {
 		go fn()
 		return
 	}
+	Yield(-4) // make sure the caller holds the baton
 	r.mu.Lock()
 	t := r.newTask(name, false)
 	t.state = stRunning
@@ -377,6 +396,9 @@ func (r *Runtime) runnable() []*Task {
 // Loop runs the scheduler until no task is runnable. It must be called by the
 // bubble root.
 func (r *Runtime) Loop() *Result {
+	// The seams are pass-through until the loop starts: the root may run
+	// instrumented code (set-up) before it.
+	active.Store(r)
 	defer active.Store(nil)
 	h := uint64(1469598103934665603)
 	for {
@@ -389,6 +411,15 @@ func (r *Runtime) Loop() *Result {
 		}
 		if r.res.Hazard != "" {
 			break
+		}
+		if r.cfg.Invariant != nil && r.res.Invariant == "" {
+			if v := r.cfg.Invariant(); v != "" {
+				cur := "-"
+				if r.cur != nil {
+					cur = fmt.Sprintf("t%d(%s) site %d", r.cur.ID, r.cur.Name, r.cur.site)
+				}
+				r.res.Invariant = fmt.Sprintf("step %d after %s: %s", r.steps, cur, v)
+			}
 		}
 		rs := r.runnable()
 		if len(rs) == 0 {
@@ -429,8 +460,7 @@ func (r *Runtime) Loop() *Result {
 		if r.preLeft > 0 {
 			gap := r.tape.Draw(uint32(2*r.cfg.PreemptMean) + 1)
 			if gap > 0 {
-				r.nextPre = r.steps + int64(gap)
-				r.preLeft--
+				r.nextPre = r.steps + int64(gap) // the budget is spent only if it fires
 			}
 		}
 		t.wake <- struct{}{}
@@ -459,31 +489,42 @@ func (r *Runtime) Loop() *Result {
 		r.res.Stuck = append(r.res.Stuck, d)
 	}
 	if n := runtime.NumGoroutine() - r.base; n > 0 {
-		r.res.Leaked = n
-		buf := make([]byte, 1<<16)
+		buf := make([]byte, 1<<17)
 		m := runtime.Stack(buf, true)
-		r.res.LeakDump = filterBubble(string(buf[:m]))
+		r.res.Leaked, r.res.LeakDump = filterBubble(string(buf[:m]))
 	}
 	return &r.res
 }
 
-// filterBubble keeps the goroutines of a stack dump that belong to a synctest
-// bubble and are not the caller.
-func filterBubble(dump string) string {
-	var out []string
-	for i, g := range strings.Split(dump, "\n\n") {
-		if i == 0 {
-			continue // the caller (bubble root)
-		}
-		if strings.Contains(g, "synctest") && !strings.Contains(g, "sim.(*Runtime).park") {
-			lines := strings.Split(g, "\n")
-			if len(lines) > 9 {
-				lines = lines[:9]
-			}
-			out = append(out, strings.Join(lines, "\n"))
-		}
+var bubbleRe = regexp.MustCompile(`synctest bubble (\d+)`)
+
+// filterBubble keeps the goroutines of a stack dump that belong to the
+// caller's synctest bubble, are not the caller or the bubble plumbing and are
+// not parked by the scheduler: those are goroutines the system under test
+// left behind.
+func filterBubble(dump string) (int, string) {
+	gs := strings.Split(dump, "\n\n")
+	m := bubbleRe.FindStringSubmatch(strings.SplitN(gs[0], "\n", 2)[0])
+	if m == nil {
+		return 0, ""
 	}
-	return strings.Join(out, "\n\n")
+	tag := "synctest bubble " + m[1] + "]"
+	var out []string
+	for _, g := range gs[1:] {
+		head := strings.SplitN(g, "\n", 2)[0]
+		if !strings.Contains(head, tag) {
+			continue
+		}
+		if strings.Contains(g, "sim.(*Runtime).park") || strings.Contains(g, "synctest.testingSynctestTest") || strings.Contains(head, "synctest.Run") {
+			continue
+		}
+		lines := strings.Split(g, "\n")
+		if len(lines) > 11 {
+			lines = lines[:11]
+		}
+		out = append(out, strings.Join(lines, "\n"))
+	}
+	return len(out), strings.Join(out, "\n\n")
 }
 
 // ---------------------------------------------------------------------------
